@@ -15,7 +15,7 @@ import (
 func init() {
 	register(&Property{
 		ID:        "C20",
-		Explain:   "Path-sensitive FOLD of ws.Dialer.Dial over URL-parse outcome x Timeout set or not x context has an earlier deadline or not x background or cancellable context x dial outcome x handshake outcome (nil / timeout error / other error) x what the watcher reports: on every path after a successful dial the connection is closed exactly when the final error is non-nil and never otherwise; the deferred function that may rewrite the named error (done(&err)) runs before the one that reads it to decide Close; on the background path SetDeadline(deadline) is paired with SetDeadline(zero) on every exit; on the watcher path the context handed to the watcher is the Timeout-bounded one whenever Timeout shortened the deadline, so the handshake phase is bounded too. setupContextDeadliner: the reply channel is buffered, the goroutine sends exactly once on every path (SetDeadline(aLongTimeAgo) before reporting ctx.Err()), done closes quit once, receives once and maps: context error wins iff the I/O error is nil or a timeout. NOT decided: timing, real connections honouring deadlines, the scheduler's race itself - the rules show both outcomes of the race are handled. The comparison that decides whether Timeout shortens the context is read with its operand order. The I/O error of the handshake must reach the watcher's mapping unchanged (dialer decision table). dial-connection-ownership: Dialer.dial is folded over scheme x callbacks x dial outcome; once a connection exists it is returned with a nil error or closed before an error is returned. Dialer.dial layering (TLS on the dialed connection, WrapConn outermost); no-io-before-deadline: dial and tlsClient perform no Read/Write/Handshake; readLine hands the read error back (chunking fold). The done function of the watcher is recognised as a closure or as a method of a state struct started with `go w.watch()`; its fold takes the kind of I/O error (nil, not a timeout, timeout) as an input fixed up front, so a mapping that never asks still meets every kind. The watcher publishes nothing but nil or the context's own ctx.Err(). The watcher's go statement dominates every return of setupContextDeadliner and nothing else sends on its channels; any non-zero Timeout, also a negative one, bounds the dial.",
+		Explain:   "Path-sensitive FOLD of ws.Dialer.Dial over URL-parse outcome x Timeout set or not x context has an earlier deadline or not x background or cancellable context x dial outcome x handshake outcome (nil / timeout error / other error) x what the watcher reports: on every path after a successful dial the connection is closed exactly when the final error is non-nil and never otherwise; the deferred function that may rewrite the named error (done(&err)) runs before the one that reads it to decide Close; on the background path SetDeadline(deadline) is paired with SetDeadline(zero) on every exit; on the watcher path the context handed to the watcher is the Timeout-bounded one whenever Timeout shortened the deadline, so the handshake phase is bounded too. setupContextDeadliner: the reply channel is buffered, the goroutine sends exactly once on every path (SetDeadline(aLongTimeAgo) before reporting ctx.Err()), done closes quit once, receives once and maps: context error wins iff the I/O error is nil or a timeout. NOT decided: timing, real connections honouring deadlines, the scheduler's race itself - the rules show both outcomes of the race are handled. The comparison that decides whether Timeout shortens the context is read with its operand order. The I/O error of the handshake must reach the watcher's mapping unchanged (dialer decision table). dial-connection-ownership: Dialer.dial is folded over scheme x callbacks x dial outcome; once a connection exists it is returned with a nil error or closed before an error is returned. Dialer.dial layering (TLS on the dialed connection, WrapConn outermost); no-io-before-deadline: dial and tlsClient perform no Read/Write/Handshake; readLine hands the read error back (chunking fold). The done function of the watcher is recognised as a closure or as a method of a state struct started with `go w.watch()`; its fold takes the kind of I/O error (nil, not a timeout, timeout) as an input fixed up front, so a mapping that never asks still meets every kind. The watcher publishes nothing but nil or the context's own ctx.Err(). The watcher's go statement dominates every return of setupContextDeadliner and nothing else sends on its channels; any non-zero Timeout, also a negative one, bounds the dial. A path of Dial that never asks whether the context has a deadline of its own stands for every answer: with a Timeout it must still use the Timeout-bounded context for the connect phase (the background context included). prefetch-keeps-source: the debug dialer's sniffing reader lets the connection's own error (the poisoned deadline) through to the handshake on every path.",
 		Technique: "static analysis: path-sensitive abstract interpretation of go/ssa (defer stacks modelled) plus CFG path counting on the watcher goroutine",
 		Trusted:   []string{"go/ssa + go/types", "the checker's abstract evaluator (defers run LIFO at function exit)", "context, net.Conn deadlines, the Go scheduler (not analysed)"},
 		Run:       runC20,
